@@ -1,19 +1,19 @@
 #!/bin/bash
-# usage: tools/mkagent.sh <wt-id> <property id>   -> creates /tmp/wt/<wt-id> (git worktree of /repo HEAD) and /root/scratch/prompt_<wt-id>.txt
+# usage: tools/mkagent.sh <wt-id> <property id> [text describing ideas already taken]   -> creates /tmp/wt/<wt-id> (git worktree of /repo HEAD) and /root/scratch/prompt_<wt-id>.txt
 set -eu
-ID="$1"; PID="$2"
-mkdir -p /tmp/wt
+ID="$1"; PID="$2"; AVOID="${3:-}"
+mkdir -p /tmp/wt /root/scratch; [ -f /root/scratch/run_baseline.py ] || cp /verif/tools/run_baseline.py /root/scratch/run_baseline.py
 git -C /repo worktree add -q --detach /tmp/wt/$ID HEAD
 mkdir -p /tmp/wt/$ID/MUTANT
-/venv/bin/python - "$ID" "$PID" <<'PY'
+/venv/bin/python - "$ID" "$PID" "$AVOID" <<'PY'
 import json,sys
-wid,pid=sys.argv[1:3]
+wid,pid,avoid=sys.argv[1:4]
 for l in open('/verif/properties.jsonl'):
     p=json.loads(l)
     if p['id']==pid:
         json.dump(p,open('/tmp/wt/%s/MUTANT/property.json'%wid,'w'),indent=1)
         text="%s: %s\nSTATEMENT: %s\nQUANTIFIED OVER: %s\nWHY EXISTING TESTS CANNOT SETTLE IT: %s\nANCHORED IN: files %s; mechanisms %s"%(p['id'],p['title'],p['statement'],p['quantifier']['text'],p['why_tests_cant'],p['anchors']['files'],[m['name']+' @ '+m['where'] for m in p['anchors']['mechanism']])
-        t=open('/root/scratch/agent_prompt.txt').read().replace('__ID__',wid).replace('__PROPERTY__',text)
+        t=open('/verif/tools/agent_prompt.txt').read().replace('__ID__',wid).replace('__PROPERTY__',text).replace('__AVOID__',(' The following ideas are ALREADY TAKEN - do something different, in a different function: '+avoid) if avoid else '')
         open('/root/scratch/prompt_%s.txt'%wid,'w').write(t)
 PY
 echo /root/scratch/prompt_$ID.txt
